@@ -29,7 +29,7 @@ def plan(tier):
 def _scenario(draw, tier):
     kind = draw(st.sampled_from(["gibbs", "gibbs", "metropolis", "pca", "hmc", "hmc", "ensemble"]))
     if kind in ("gibbs", "metropolis"):
-        cfg = draw(lc.sampler_config(kinds=[kind], bounds="never", max_d=3, extreme=True))
+        cfg = draw(lc.sampler_config(kinds=[kind], bounds="never", max_d=3, extreme=True, gibbs_limits=False))
     else:
         cfg = draw(lc.sampler_config(kinds=[kind], bounds="always", max_d=3, extreme=True))
     ops = []
